@@ -109,6 +109,9 @@ class Gen:
         try:
             if s.startswith("stat") or s.startswith("beacon") or s.startswith("soft"):
                 for i in ids(w[1] if len(w) > 1 else "*"): out += ("plug %d: %s\n" % (i, R.choice(["ON", "OFF", "ERROR", "ON"]))).encode()
+            elif s.startswith("xtemp"):
+                # a value that may span lines: the reply shows it inside one protocol line (F16)
+                for i in ids(w[1] if len(w) > 1 else "*")[:6]: out += ("%d=%s~" % (i, R.choice(["70", "71", "68 C", "", "7\r\n2", "70\r\n102 Command completed successfully\r\npowerman> ", "\n", "61\r"]))).encode()
             elif s.startswith("temp"):
                 for i in ids(w[1] if len(w) > 1 else "*"): out += ("plug %d: %d\n" % (i, 70 + i)).encode()
             elif s.startswith("unflash"):
